@@ -275,8 +275,9 @@ def obligations(tier):
     o.append(Obl("fill[sharded-target,inner-chunks]", h_sharded_inner, [("n", 1, 6), ("c", 1, 6), ("ic", 1, 2), ("k", 1, 3), ("a", 0, 6), ("use_region", 0, 1), ("g", 0, 12)],
                  bounds="n, source chunk <= 6; inner chunks 1..2, shards of 1..3 inner chunks; whole store or a region at offset 0..6 (accepted only when shard-aligned)",
                  witness_rule=lambda m: m["k"] >= 2 and m["a"] >= 1, **common))
-    o.append(Obl("fill[one-source,two-targets]", h_two_targets, [("n", 1, R), ("c", 1, R), ("tc", 1, R), ("k1", 0, 1), ("k2", 0, 1), ("lazy", 0, 2), ("which", 0, 1), ("g", 0, R)],
-                 bounds=f"n, source chunk, target chunk <= {R}; each target an existing array or a path; source a leaf, an uncomputed array, or an uncomputed array stored by two lazy store() calls",
+    RT = min(R, 6)  # thorough tier: 6 (the 3 x 2 x 2 x 2 kinds of source / targets multiply the geometry)
+    o.append(Obl("fill[one-source,two-targets]", h_two_targets, [("n", 1, RT), ("c", 1, RT), ("tc", 1, RT), ("k1", 0, 1), ("k2", 0, 1), ("lazy", 0, 2), ("which", 0, 1), ("g", 0, RT)],
+                 bounds=f"n, source chunk, target chunk <= {RT}; each target an existing array or a path; source a leaf, an uncomputed array, or an uncomputed array stored by two lazy store() calls",
                  witness_rule=lambda m: m["lazy"] >= 1, **common))
     o.append(Obl("pairing", h_pairing, [("ns", 0, 3), ("nt", 0, 3), ("nr", 0, 4), ("bad", 0, 1)], bounds="0..3 sources/targets, regions None or a list of 0..3", **common))
 
